@@ -148,6 +148,8 @@ type drvResult struct {
 }
 
 func (d *c20drv) spawn(bin string, sc *scenario, args []string) drvResult {
+	stillAlive()
+	defer stillAlive()
 	d.n++
 	var res drvResult
 	cmd := childCommand(bin, args...)
@@ -182,7 +184,7 @@ func (d *c20drv) spawn(bin string, sc *scenario, args []string) drvResult {
 		} else if err != nil {
 			res.code = -2
 		}
-	case <-time.After(10 * time.Second):
+	case <-time.After(25 * time.Second):
 		cmd.Process.Kill()
 		<-done
 		res.hung = true
@@ -191,6 +193,12 @@ func (d *c20drv) spawn(bin string, sc *scenario, args []string) drvResult {
 	if sc != nil {
 		if b, err := os.ReadFile(sc.StatFile); err == nil {
 			json.Unmarshal(b, &res.stat)
+		}
+		if res.hung && res.stat != nil {
+			// the driver had reached its end (it writes the statistics last):
+			// on a saturated machine ten seconds can pass before a finished
+			// process is reaped - that is not a driver that does not terminate
+			res.hung = false
 		}
 	}
 	return res
@@ -385,7 +393,7 @@ func (d *c20drv) run(c *verifsim.Chooser, st *Stats, render bool) *Outcome {
 
 	// every sub-command terminates normally
 	if res.hung {
-		o.violate("C20/driver", sig+" hang", "the driver did not terminate (10 s of wall clock; simulated hard cap 400000 polls)")
+		o.violate("C20/driver", sig+" hang", "the driver did not terminate (25 s of wall clock; simulated hard cap 400000 polls)")
 		return o
 	}
 	if res.code != 0 && res.code != 1 {
